@@ -39,14 +39,14 @@ def plan(tier, seed):
 
 def floors(tier):
     return {"cls:feature_interaction_query": 300, "distinct_nontrivial": 200, "cls:pos:cond": 500, "cls:pos:operand_an": 100, "cls:pos:operand_the": 30,
-            "cls:pos:argument": 100, "cls:pos:correlated_the": 100, "cls:pos:correlated_an": 100, "cls:pos:operand_value_eq": 100, "cls:pos:pred_arg_bound": 100, "cls:pos:ctor_arg_bound": 100, "cls:pos:operand_in_or": 100, "cls:pos:operand_attr": 100, "cls:pos:container": 100, "cls:pos:alias_in_or": 100, "cls:conn:&": 150, "cls:conn:|": 150, "cls:sub:set": 100, "cls:sub:ent0": 100,
+            "cls:pos:argument": 100, "cls:pos:correlated_the": 100, "cls:pos:correlated_an": 100, "cls:pos:operand_value_eq": 100, "cls:pos:pred_arg_bound": 100, "cls:pos:ctor_arg_bound": 100, "cls:pos:operand_in_or": 100, "cls:pos:operand_attr": 100, "cls:pos:container": 100, "cls:pos:alias_in_or": 100, "cls:pos:selected_operand_in_or": 100, "cls:conn:&": 150, "cls:conn:|": 150, "cls:sub:set": 100, "cls:sub:ent0": 100,
             "cls:sub:ent1": 100, "cls:with_plain": 100, "re:An@.*\\.enter": 1000}
 
 
 def gen_case(rng):
     world = D.random_world(rng, np_=(2, 4), nq=(2, 4))
     pos = rng.choice(["cond", "cond", "cond", "operand_an", "operand_the", "argument", "correlated_the", "correlated_an",
-                      "operand_value_eq", "pred_arg_bound", "ctor_arg_bound", "operand_in_or", "operand_attr", "container", "alias_in_or"])
+                      "operand_value_eq", "pred_arg_bound", "ctor_arg_bound", "operand_in_or", "operand_attr", "container", "alias_in_or", "selected_operand_in_or"])
     case = {"world": world, "pos": pos, "caching": rng.random() < 0.7}
     if pos == "alias_in_or":
         # ONE attribute expression object (flag = y.flag, falsy values in the data) is the operand of a comparison and the whole
@@ -120,6 +120,10 @@ def expected(case, world):
     if case["pos"] == "container":
         # in_(x.a, an(entity(y.t, c1))) / contains(an(entity(y.t, c1)), x.a): the sub-query's solutions are the containers
         return [(m[id(q)],) for q in qs if any(q.a in p.t for p in sols)]
+    if case["pos"] == "selected_operand_in_or":
+        # sub = an(entity(y, c1)); an(set_of([sub, x], (x.a == k0) | (x.p == sub))): the sub-query is SELECTED and the conditions
+        # mention it only in the later alternative; every selected y satisfies c1, also on rows the first alternative accepts
+        return [(m[id(p)], m[id(q)]) for p in sols for q in qs if q.a == case["k0"] or q.p is p]
     if case["pos"] == "operand_in_or":
         # (x.p == an(entity(y, c1))) | (x.a == k0)
         return [(m[id(q)],) for q in qs if any(q.p is p for p in sols) or q.a == case["k0"]]
@@ -216,7 +220,7 @@ def run(case, world, caching, times=1, flattened=False):
             else:
                 y = let(D.P, ps)
                 x = let(D.Q, qs)
-                if flattened and case["pos"] not in ("operand_in_or", "operand_attr", "container"):
+                if flattened and case["pos"] not in ("operand_in_or", "operand_attr", "container", "selected_operand_in_or"):
                     q = an(set_of([x], x.p == y, C.build(case["c1"], [y], 0, False)))
                 elif case["pos"] == "operand_attr":
                     op = C.OPS[case.get("op2", "<=")]
@@ -232,6 +236,14 @@ def run(case, world, caching, times=1, flattened=False):
                         q = an(set_of([x], in_(x.a, an(entity(y.t, C.build(case["c1"], [y], 0, False))))))
                     else:
                         q = an(set_of([x], contains(an(entity(y.t, C.build(case["c1"], [y], 0, False))), x.a)))
+                elif case["pos"] == "selected_operand_in_or":
+                    if flattened:
+                        q = an(set_of([y, x], C.build(case["c1"], [y], 0, False), (x.a == case["k0"]) | (x.p == y)))
+                        sel_ = [y, x]
+                    else:
+                        sub = an(entity(y, C.build(case["c1"], [y], 0, False)))
+                        q = an(set_of([sub, x], (x.a == case["k0"]) | (x.p == sub)))
+                        sel_ = [sub, x]
                 elif case["pos"] == "operand_in_or" and flattened:
                     q = an(set_of([x], ((x.p == y) & C.build(case["c1"], [y], 0, False)) | (x.a == case["k0"])))
                 elif case["pos"] == "operand_in_or":
@@ -245,7 +257,7 @@ def run(case, world, caching, times=1, flattened=False):
                     term = D.Q(From(qs), p=sub)
                     q = an(set_of([term]))
                     x = term
-                sel = [x]
+                sel = sel_ if case["pos"] == "selected_operand_in_or" else [x]
         if case["pos"] == "ctor_arg_bound":
             from entity_query_language import infer
             from entity_query_language.symbolic import rule_mode
@@ -296,7 +308,7 @@ def check_case(case, ctx):
         total = len(world["E"])
     elif case["pos"] == "pred_arg_bound":
         total = len(world["P"])
-    elif case["pos"] == "alias_in_or":
+    elif case["pos"] in ("alias_in_or", "selected_operand_in_or"):
         total = len(world["P"]) * len(world["Q"])
     else:
         total = len(world["Q"])
